@@ -23,18 +23,27 @@ Import ListNotations.
 (* ------------------------------------------------------------------ *)
 
 Inductive mode := Plain | ConnectBlind | ConnectMitm.
-Inductive reqb := QPass | QErr | QSkip | QHijack.
-Inductive rtb := RtOk | RtFail.
-Inductive resb := SPass | SErr | SHijack.
+(* what the round tripper / dialer does: answers with res.Request set to the
+   request it was given, to a copy of it, to nil; or fails *)
+Inductive rtb := RtOk | RtClone | RtNil | RtFail.
 
+(* Modifier behaviours are independent flags of one call: the request
+   modifier may hijack the session, return an error, ask to skip the round
+   trip, in any combination (it always mutates the request); the response
+   modifier may hijack and / or return an error. *)
 Record req := mkReq
-  { r_mode : mode; r_q : reqb; r_rt : rtb; r_s : resb; r_close : bool }.
+  { r_mode : mode;
+    q_hij : bool; q_err : bool; q_skip : bool;
+    r_rt : rtb;
+    s_hij : bool; s_err : bool;
+    r_close : bool }.
 
-Definition is_qhijack (q : req) : bool := match r_q q with QHijack => true | _ => false end.
-Definition is_qerr (q : req) : bool := match r_q q with QErr => true | _ => false end.
-Definition is_qskip (q : req) : bool := match r_q q with QSkip => true | _ => false end.
-Definition is_shijack (q : req) : bool := match r_s q with SHijack => true | _ => false end.
-Definition is_serr (q : req) : bool := match r_s q with SErr => true | _ => false end.
+Definition is_qhijack (q : req) : bool := q_hij q.
+Definition is_qerr (q : req) : bool := q_err q.
+Definition is_qskip (q : req) : bool := q_skip q.
+Definition is_shijack (q : req) : bool := s_hij q.
+Definition is_serr (q : req) : bool := s_err q.
+Definition rt_fails (q : req) : bool := match r_rt q with RtFail => true | _ => false end.
 Definition is_blind (q : req) : bool := match r_mode q with ConnectBlind => true | _ => false end.
 Definition is_plain (q : req) : bool := match r_mode q with Plain => true | _ => false end.
 Definition b2n (b : bool) : nat := if b then 1 else 0.
@@ -106,27 +115,26 @@ Fixpoint handle (v : variant) (s : nat) (st : state) (reqs : list req)
           let up := if is_qskip q then [] else [Upstream r true wq 1] in   (* 503 / 600 *)
           let '(status, w0) :=
             if is_qskip q then (200, 0)
-            else match r_rt q with RtOk => (203, 0) | RtFail => (502, 1) end in  (* 506-507 *)
+            else if rt_fails q then (502, 1) else (203, 0) in  (* 506-507; 513 res.Request = req *)
           let rm := ResMod r true c s status w0 L in          (* 513-515 *)
           if is_shijack q
           then (head ++ up ++ [rm; HijackRet r; Unlink r], st' true, rest, RNil)   (* 519-522 *)
           else (head ++ up ++ [rm; Write r status (w0 + se) (r_close q) 1; Unlink r],
                 st' false, rest, if r_close q then RClose else RNil)      (* 525-584 *)
       | ConnectBlind =>
-          match r_rt q with
-          | RtFail =>                                          (* 374-396 *)
+          if rt_fails q
+          then                                                 (* 374-396 *)
               let rm := ResMod r true c s 502 1 L in
               if is_shijack q
               then (head ++ [Dial r; rm; HijackRet r; Unlink r], st' true, rest, RNil)
               else (head ++ [Dial r; rm; Write r 502 (1 + se) (r_close q) 1; Unlink r],
                     st' false, rest, RNil)
-          | RtOk =>                                            (* 397-439 *)
+          else                                                 (* 397-439 *)
               let rm := ResMod r true c s 200 0 L in
               if is_shijack q
               then (head ++ [Dial r; rm; HijackRet r; Unlink r], st' true, rest, RNil)
               else (head ++ [Dial r; rm; Write r 200 se true 1; Tunnel r; Unlink r],
                     st' false, rest, RClose)
-          end
       | ConnectMitm =>                                         (* 308-370 *)
           let rm := ResMod r true c s 200 0 L in
           if is_shijack q
@@ -225,22 +233,21 @@ Definition block (r c s : nat) (q : req) : list event * outcome :=
       let up := if is_qskip q then [] else [Upstream r true (b2n (is_qerr q)) 1] in
       let '(status, w0) :=
         if is_qskip q then (200, 0)
-        else match r_rt q with RtOk => (203, 0) | RtFail => (502, 1) end in
+        else if rt_fails q then (502, 1) else (203, 0) in
       if is_shijack q
       then (ReqMod r c s L :: up ++ [ResMod r true c s status w0 L; HijackRet r], Stop)
       else (ReqMod r c s L :: up ++ [ResMod r true c s status w0 L; Write r status (w0 + se) (r_close q) 1],
             if r_close q then Stop else Continue)
   | ConnectBlind =>
-      match r_rt q with
-      | RtFail =>
+      if rt_fails q
+      then
           if is_shijack q
           then ([ReqMod r c s L; Dial r; ResMod r true c s 502 1 L; HijackRet r], Stop)
           else ([ReqMod r c s L; Dial r; ResMod r true c s 502 1 L; Write r 502 (1 + se) (r_close q) 1], Continue)
-      | RtOk =>
+      else
           if is_shijack q
           then ([ReqMod r c s L; Dial r; ResMod r true c s 200 0 L; HijackRet r], Stop)
           else ([ReqMod r c s L; Dial r; ResMod r true c s 200 0 L; Write r 200 se true 1; Tunnel r], Stop)
-      end
   | ConnectMitm =>
       if is_shijack q
       then ([ReqMod r c s L; ResMod r true c s 200 0 L; HijackRet r], Stop)
@@ -395,15 +402,16 @@ Definition cl_error_ex (q : req) (E : list event) : bool :=
           else Nat.eqb (count is_write E) 1)
   end.
 
-(* C7: skip => no upstream contact, a 200 without warnings reaches the
-   response modifier. *)
+(* C7: skip => no upstream contact and, unless the same call hijacked the
+   session, a 200 without warnings reaches the response modifier. *)
 Definition cl_skip_ex (q : req) (E : list event) : bool :=
   match E with
   | [] => true
   | _ =>
       if is_qskip q
       then negb (existsb is_contact E)
-           && match find_resmod E with Some (st, w) => Nat.eqb st 200 && Nat.eqb w 0 | None => false end
+           && (is_qhijack q
+               || match find_resmod E with Some (st, w) => Nat.eqb st 200 && Nat.eqb w 0 | None => false end)
       else true
   end.
 
